@@ -79,6 +79,15 @@ def gen(tier, rng):
                 pre = ""
             lines[k] = 'PRINT "#%d";:%s%s' % (k, pre, stmt)
             faults.append((k, kind, under))
+        # lines without code (remarks, DATA) directly in front of a faulty line start at the same address as it does: the
+        # diagnostic must still name the faulty line
+        for (k, _, _) in list(faults):
+            i = nums.index(k)
+            for j in (i - 1, i - 2):
+                if j >= 0 and rng.random() < 0.5 and not any(f[0] == nums[j] for f in faults):
+                    lines[nums[j]] = rng.choice(["REM note", "'", "DATA 1,2", "' \u00e9\u65e5", "DATA \"x\""])
+                else:
+                    break
         prog = ["%d %s" % (k, lines[k]) for k in nums]
         entries = [["RUN"], ["RUN %d" % rng.choice(nums)], ["GOTO %d" % rng.choice(nums)], ["GOSUB %d" % rng.choice(nums)],
                    ["Z=1:ON Z GOTO %d" % rng.choice(nums)], ["RUN", "CONT"], ["Z=1:ON Z GOSUB %d" % nums[0]]]
